@@ -142,6 +142,60 @@ impl TreeGen {
         body.push(PG::Eq(T::list(l), T::list(rr)));
         Prog { nvars: nv, nq: nv, take: 0, body, raw: false }
     }
+    /// Scenario "nested re-run": a disequality against a NESTED term is stored first; a later unification gives the other
+    /// side the same shape with variables deep inside (so the re-run leaves a residual on those inner variables, or on
+    /// none); then the inner variables are bound — to the values that violate the disequality, or to others.  Written in
+    /// a random order (the harness also permutes).  (Seeded change C02-m: a re-run fast path that looked only at the top
+    /// level of both sides and discharged `[[a]] != [[1]]` for good.)
+    pub fn nested_rerun(r: &mut Rng) -> Prog {
+        // skeleton with numbered slots
+        fn skel(r: &mut Rng, d: usize, slots: &mut usize) -> T {
+            if d == 0 || r.chance(1, 4) {
+                *slots += 1;
+                return T::Var(1000 + *slots - 1);
+            }
+            match r.below(3) {
+                0 => T::list((0..1 + r.below(2)).map(|_| skel(r, d - 1, slots)).collect()),
+                1 => {
+                    let h = skel(r, d - 1, slots);
+                    let t = skel(r, d - 1, slots);
+                    T::cons(h, t)
+                }
+                _ => T::Comp(0, (0..2).map(|_| skel(r, d - 1, slots)).collect()),
+            }
+        }
+        let mut slots = 0;
+        let depth = 2 + r.below(2);
+        let sk = T::list(vec![skel(r, depth - 1, &mut slots)]);
+        let consts: Vec<T> = (0..slots).map(|_| T::Num(r.range(1, 3) as isize)).collect();
+        // which slots are inner variables (v1, v2) on the unified side
+        let inner: Vec<Option<usize>> = (0..slots).map(|_| if r.chance(2, 3) { Some(1 + r.below(2)) } else { None }).collect();
+        let fill = |f: &dyn Fn(usize) -> T| sk.subst(&|x| match x { T::Var(k) if *k >= 1000 => Some(f(*k - 1000)), _ => None });
+        let t_const = fill(&|i| consts[i].clone());
+        let other: Vec<bool> = (0..slots).map(|_| r.chance(1, 5)).collect();
+        let t_var = fill(&|i| match inner[i] { Some(v) => T::Var(v), None => if !other[i] { consts[i].clone() } else { T::Num(9) } });
+        let mut body = vec![];
+        if r.chance(3, 4) {
+            body.push(PG::Neq(T::Var(0), t_const.clone()));
+            body.push(PG::Eq(T::Var(0), t_var));
+        } else {
+            // the two nested sides written directly
+            body.push(PG::Neq(t_var, t_const.clone()));
+        }
+        for v in 1..3usize {
+            if let Some(i) = inner.iter().position(|x| *x == Some(v)) {
+                if r.chance(4, 5) {
+                    let val = if r.chance(2, 3) { consts[i].clone() } else { T::Num(r.range(1, 3) as isize) };
+                    body.push(PG::Eq(T::Var(v), val));
+                }
+            }
+        }
+        for i in (1..body.len()).rev() {
+            let j = r.below(i + 1);
+            body.swap(i, j);
+        }
+        Prog { nvars: 3, nq: 3, take: 0, body, raw: false }
+    }
     pub fn prog(&self, r: &mut Rng) -> Prog {
         let n = 1 + r.below(self.max_atoms);
         Prog { nvars: self.nv(), nq: self.nq, take: 0, body: self.conj(r, n, 2), raw: false }
